@@ -53,6 +53,7 @@ def main():
     driver_ok = build["targets"].get("driver", {"ok": common.DRIVER.exists()})["ok"] and common.DRIVER.exists()
     ctx.driver = common.Driver() if driver_ok else None
 
+    changed = []
     # ---- T3 (advisory): source fingerprints of the functions in the property's anchor files; a change escalates the
     # quick tier to the thorough budgets (never a violation by itself)
     try:
@@ -134,6 +135,10 @@ def main():
         broken.append("model-driver-build")
     if out.disagreements:
         broken.append("correspondence")
+    if infra_error and changed:
+        # the harness crashed while driving code whose anchored functions differ from the validated reference (T3): the tie can no
+        # longer be established for this code — that is a broken correspondence (never on the unchanged tree, where it stays exit 2)
+        broken.append("harness-could-not-drive-the-changed-code")
     if infra_error and not new_fail and not broken:
         print("INFRASTRUCTURE ERROR\n" + infra_error)
         write_evidence(mod, ctx, build, aud, proof_ok, 0, known_hits, infra=infra_error)
